@@ -7,9 +7,17 @@
     from the source, and an edit that changes what one of them does changes
     VerifyGen.v and breaks one of these obligations.
 
-    Two of the equalities carry the hypothesis a Python mapping always meets
-    (no key twice: [uniq_keys]); [yaml_load] establishes it, and the pipeline
-    lemma at the end is unconditional. *)
+    Hypotheses: the equalities that go through verify_parameters ([verify],
+    the loader, the pipeline) ask for what every Python mapping guarantees --
+    no key twice in global.parameters ([uniq_keys]; the source's own "name in
+    global_names" guard is dead code on a dict and has no counterpart in
+    Verify.v); [add_step] asks for the source node Study.__init__ creates.
+    [yaml_load] establishes the first, [study_nodes_gen] the second, so
+    [verify_and_build_is_generated] at the end -- about the very function the
+    theorems of Props/C13.v are stated for -- is unconditional.
+    Not translated (Verify.v's hand-written text stands): the constructors of
+    the environment classes ([new_Variable] ... in VerifyOps.v), the message
+    building inside validate_schema, maestro.run_study's reserved names. *)
 From Coq Require Import List ZArith NArith Bool Arith Lia.
 From MWF Require Import Base.Str Spec.Json Spec.Schema Gen.SpecData Spec.Verify Spec.SchemaProofs
   Spec.SpecProofs Spec.VerifyOps Spec.VerifyGen.
@@ -93,18 +101,6 @@ Qed.
 
 Theorem verify_sources_is_generated : forall sp, verify_sources_gen sp = Ok tt.
 Proof. reflexivity. Qed.
-
-Lemma dep_items_is_generated (its : list jv) : forall seen,
-  for_in its (fun item keys_seen =>
-      t6 <- getitem item (s "name") ;;
-      t7 <- as_str t6 ;;
-      if mem_str t7 keys_seen then Err (Diag DDupDepName) else
-      let keys_seen := set_add t7 keys_seen in Ok keys_seen) seen =
-  mfold (fun seen item =>
-           n <- getitem item (s "name") ;;
-           n <- as_str n ;;
-           if mem_str n seen then Err (Diag DDupDepName) else Ok (seen ++ [n])) its seen.
-Proof. intros seen. reflexivity. Qed.
 
 Theorem verify_dependencies_is_generated : forall sp seen,
   verify_dependencies_gen sp seen = verify_dependencies (sp_env sp) seen.
@@ -256,6 +252,24 @@ Proof.
   destruct (verify_study (sp_study sp)); cbn [bind]; [|reflexivity].
   destruct (verify_parameters (sp_globals sp)); cbn [bind]; [|reflexivity].
   apply name_is_generated.
+Qed.
+
+(* ------------------------------------------------------------------------- *)
+(** * __init__, load_specification_from_stream                                *)
+(* ------------------------------------------------------------------------- *)
+Theorem load_specification_is_generated : forall d,
+  (forall sp, load d = Ok sp -> uniq_keys (sp_globals sp)) ->
+  load_specification_gen d = (sp <- load d ;; verify sp ;;; Ok sp).
+Proof.
+  intros d Hu. unfold load_specification_gen, load.
+  destruct d as [| | | | | |l]; cbn [is_dict negb]; try reflexivity.
+  cbn [py_get dict_pop_default bind]. unfold getd.
+  rewrite !(lookup_remove_key_neq (s "env")), !(lookup_remove_key_neq (s "study")),
+    !(lookup_remove_key_neq (s "global.parameters")) by reflexivity.
+  unfold new_specification_gen, spec_set_description, spec_set_environment, spec_set_study, spec_set_globals.
+  cbn [sp_desc sp_env sp_study sp_globals].
+  rewrite verify_is_generated; [reflexivity|].
+  apply (Hu _ eq_refl).
 Qed.
 
 (* ------------------------------------------------------------------------- *)
@@ -580,11 +594,9 @@ Qed.
 (** * the whole front end on a loaded document                                *)
 (* ------------------------------------------------------------------------- *)
 (** [pipeline] of Verify.v with every translated function replaced by its
-    generated text ([load] and maestro.run_study's reserved names are not
-    translated) *)
+    generated text (maestro.run_study's reserved names are not translated) *)
 Definition pipeline_gen (d : jv) : res (list str) :=
-  sp <- load d ;;
-  verify_gen sp ;;;
+  sp <- load_specification_gen d ;;
   names <- get_study_environment_gen sp ;;
   steps <- get_study_steps_gen sp ;;
   reserved_ok names ;;;
@@ -595,9 +607,8 @@ Definition pipeline_gen (d : jv) : res (list str) :=
 Theorem pipeline_is_generated : forall d,
   (forall sp, load d = Ok sp -> uniq_keys (sp_globals sp)) -> pipeline_gen d = pipeline d.
 Proof.
-  intros d Hu. unfold pipeline_gen, pipeline.
+  intros d Hu. unfold pipeline_gen, pipeline. rewrite (load_specification_is_generated d Hu).
   destruct (load d) as [sp|]; cbn [bind]; [|reflexivity].
-  rewrite (verify_is_generated sp (Hu sp eq_refl)).
   destruct (verify sp); cbn [bind]; [|reflexivity].
   rewrite get_study_environment_is_generated.
   destruct (get_study_environment (sp_env sp)) as [names|]; cbn [bind]; [|reflexivity].
